@@ -20,6 +20,8 @@ WORLDS = {
     "C06": "worlds.c06",
     "C04": "worlds.c04",
     "C05": "worlds.c05",
+    "C14": "worlds.c14",
+    "C16": "worlds.c16",
 }
 
 # per-property tier sizes: (runs, wall budget seconds, per-run timeout)
